@@ -2,6 +2,19 @@ import Tahoe.Mutable.ServerMapLemmas
 import Tahoe.Mutable.ResurveyLemmas
 /-! C11 — mutable version ordering and rollback resistance (property theorems; helper lemmas live in
     `Tahoe/Mutable/ServerMapLemmas.lean`). -/
+/-!
+## Coverage of the statement (properties.jsonl C11)
+
+| clause of the statement | theorem(s) |
+|---|---|
+| "Each successful publish writes a version whose sequence number is higher than every version its survey observed" | `new_seqnum_exceeds_survey` (one survey; `Publish.publish` and `Publish.update` both take `highest_seqnum()+1` — tied per call by correspondence), `new_seqnum_exceeds_all_passes` (operations that survey several times into one servermap: `modify()`, the MODE_CHECK retry, the MDMF update path; servers may stop answering between passes in any pattern; hypothesis: the shares themselves do not change during the operation), `new_seqnum_is_successor` |
+| "…so one writer's versions strictly increase" | `one_writer_strictly_increasing` (histories of any length; hypothesis = the statement's own: each survey observed the writer's previous version or something at least as new) |
+| "A read returns the recoverable version with the highest sequence number among the versions it located" | `best_is_max_recoverable` (`best_recoverable_version`: max (seqnum, root hash) among versions with ≥ k distinct shares; `None` iff none); that `download_best_version` reads exactly that version: C14 `download_version_exact` + monitor |
+| "…and keeps querying further servers while it has seen a newer version it cannot yet recover" | `keeps_querying` (never `done`), `keeps_querying_sends` (a new query is actually sent), `read_done_sound` (converse: what `done` implies) |
+| quantifier: stale shares on any subset of servers, unavailable servers, servers that replay older shares | the theorems quantify over all servermaps / updater states / pass sequences; which servermap a given grid produces is correspondence + monitor (grid histories) |
+| MODE_WRITE boundary rule (EPSILON empty servers after the last share, everybody to the left answered) | correspondence only (`upd` cases, all `_check_for_done` calls of grid histories); no theorem |
+| MODE_CHECK / MODE_ANYTHING / MODE_REPAIR exits of `_check_for_done` | correspondence only |
+-/
 namespace Tahoe.C11
 open Tahoe.Mutable Tahoe.Mutable.ServerMap
 
